@@ -10,7 +10,9 @@
        beyond min(size, MaxSize) raises (GetFixed);
      * a get that succeeds returns exactly the bytes at the cursor.
    I-layer: the wire format of the put side (native little-endian 32-bit int, 4-byte length prefix before string bytes,
-   put refused when capacity would be exceeded) and hasMoreData. *)
+   put refused when capacity would be exceeded), hasMoreData, and the reader as it is today (ImplDoGet): any get of one or
+   more bytes from a buffer whose size field exceeds MaxSize, or with the cursor beyond size, raises - also when the
+   requested bytes themselves would lie inside raw (stricter than the statement needs; MC_TypedMsg: ImplDoGet refines DoGet). *)
 EXTENDS Integers, Sequences
 CONSTANT MaxSize
 Raise == [ok |-> FALSE]
@@ -45,6 +47,22 @@ DoGet(buf, off, g) ==
     [] g.op = "str" -> GetString(buf, off)
     [] g.op \in {"fixed", "pod"} -> GetFixed(buf, off, g.a)
     [] g.op = "more" -> [ok |-> TRUE, v |-> HasMore(buf, off), off |-> off]
+
+\* ---- I-layer: today's reader (getRaw: Must(size <= sizeof(raw)); Must(offset <= size); Must(n <= size - offset)) ----
+ImplGetFixed(buf, off, n) ==
+  IF n = 0 THEN [ok |-> TRUE, v |-> <<>>, off |-> off]
+  ELSE IF buf.size > MaxSize \/ off > buf.size \/ n > buf.size - off THEN Raise
+  ELSE [ok |-> TRUE, v |-> [k \in 1..n |-> Byte(buf, off + k)], off |-> off + n]
+ImplGetInt(buf, off) == LET r == ImplGetFixed(buf, off, 4) IN IF r.ok THEN [ok |-> TRUE, v |-> Int32Of(r.v), off |-> r.off] ELSE Raise
+ImplGetString(buf, off) ==
+  LET l == ImplGetInt(buf, off) IN
+  IF ~l.ok \/ l.v < 0 \/ l.v > MaxSize THEN Raise
+  ELSE ImplGetFixed(buf, l.off, l.v)
+ImplDoGet(buf, off, g) ==
+  CASE g.op = "int" -> ImplGetInt(buf, off)
+    [] g.op = "str" -> ImplGetString(buf, off)
+    [] g.op \in {"fixed", "pod"} -> ImplGetFixed(buf, off, g.a)
+    [] OTHER -> DoGet(buf, off, g)
 
 \* ---- writing (I-layer wire format) ----
 Empty(t) == [type |-> t, size |-> 0, raw |-> <<>>]
